@@ -15,6 +15,7 @@ import (
 	"flag"
 	"fmt"
 	"os"
+	"runtime/debug"
 	"sort"
 	"sync"
 	"time"
@@ -281,7 +282,7 @@ func newSubject(tkind, route string, hashes [][2]int, init int) *Subject {
 }
 
 func newSubjectK(tkind, route string, keys map[int]*HK, th *starlark.Thread, init int) *Subject {
-	s := &Subject{tkind: tkind, route: route, keys: keys, th: th, vacated: map[[2]int]bool{}}
+	s := &Subject{tkind: tkind, route: route, keys: keys, th: th}
 	if tkind == "dict" {
 		if init < 0 {
 			s.x = new(starlark.Dict)
@@ -513,7 +514,7 @@ func noDup(l []int) bool {
 }
 
 func (s *Subject) rebound() {
-	s.vacated = map[[2]int]bool{}
+	s.vacated = nil
 	s.lastNB = 0
 }
 
@@ -772,13 +773,16 @@ func (s *Subject) after(o Op, loc [2]int, had bool, lenBefore, lenAfter int) {
 	}
 	if s.lastNB != 0 && nb > s.lastNB {
 		s.cov.Grew = true
-		s.vacated = map[[2]int]bool{}
+		s.vacated = nil
 	}
 	s.lastNB = nb
 	if o.Op == "clear" {
-		s.vacated = map[[2]int]bool{}
+		s.vacated = nil
 	}
 	if had && lenAfter < lenBefore {
+		if s.vacated == nil {
+			s.vacated = map[[2]int]bool{}
+		}
 		s.vacated[loc] = true
 	}
 	if (o.Op == "insert" || o.Op == "setdefault") && lenAfter > lenBefore && len(s.vacated) > 0 {
@@ -962,7 +966,19 @@ func shrink(m *Mismatch, probe []int) *Mismatch {
 
 type symbol func(pos int) Op
 
-func alphabet(tkind, route string) []symbol {
+var (
+	exhUpdD  = [][2]int{{1, 91}, {3, 93}, {1, 95}}
+	exhUniD  = [][2]int{{4, 94}, {0, 90}}
+	exhUpdS  = [][2]int{{3, 0}, {0, 0}, {3, 0}}
+	exhUni   = []int{4, 1, 4}
+	exhInt   = []int{2, 0, 2, 3}
+	exhDif   = []int{1, 3, 1}
+	exhSym   = []int{2, 4, 2, 4, 0}
+	exhIntOp = []int{3, 2, 0}
+	exhSymOp = []int{4, 2, 0}
+)
+
+func alphabet(tkind, route string, core bool) []symbol {
 	var a []symbol
 	add := func(f symbol) { a = append(a, f) }
 	for k := 0; k < 5; k++ {
@@ -977,22 +993,25 @@ func alphabet(tkind, route string) []symbol {
 	}
 	add(func(p int) Op { return Op{Op: "popfirst"} })
 	add(func(p int) Op { return Op{Op: "clear"} })
+	if core {
+		return a
+	}
 	if tkind == "dict" {
 		for k := 0; k < 5; k++ {
 			k := k
 			add(func(p int) Op { return Op{Op: "setdefault", K: k, V: vv(tkind, p)} })
 		}
-		add(func(p int) Op { return Op{Op: "update", L: [][2]int{{1, 91}, {3, 93}, {1, 95}}} })
-		add(func(p int) Op { return Op{Op: "dictunion", L: [][2]int{{4, 94}, {0, 90}}} })
+		add(func(p int) Op { return Op{Op: "update", L: exhUpdD} })
+		add(func(p int) Op { return Op{Op: "dictunion", L: exhUniD} })
 	} else {
-		add(func(p int) Op { return Op{Op: "update", L: [][2]int{{3, 0}, {0, 0}, {3, 0}}} })
-		add(func(p int) Op { return Op{Op: "setunion", Ks: []int{4, 1, 4}} })
-		add(func(p int) Op { return Op{Op: "setinter", Ks: []int{2, 0, 2, 3}} })
-		add(func(p int) Op { return Op{Op: "setdiff", Ks: []int{1, 3, 1}} })
-		add(func(p int) Op { return Op{Op: "setsymdiff", Ks: []int{2, 4, 2, 4, 0}} })
+		add(func(p int) Op { return Op{Op: "update", L: exhUpdS} })
+		add(func(p int) Op { return Op{Op: "setunion", Ks: exhUni} })
+		add(func(p int) Op { return Op{Op: "setinter", Ks: exhInt} })
+		add(func(p int) Op { return Op{Op: "setdiff", Ks: exhDif} })
+		add(func(p int) Op { return Op{Op: "setsymdiff", Ks: exhSym} })
 		// operator forms with a set operand (no duplicates)
-		add(func(p int) Op { return Op{Op: "setinter", Ks: []int{3, 2, 0}, Form: 1} })
-		add(func(p int) Op { return Op{Op: "setsymdiff", Ks: []int{4, 2, 0}, Form: 1} })
+		add(func(p int) Op { return Op{Op: "setinter", Ks: exhIntOp, Form: 1} })
+		add(func(p int) Op { return Op{Op: "setsymdiff", Ks: exhSymOp, Form: 1} })
 	}
 	return a
 }
@@ -1030,14 +1049,14 @@ type exhStats struct {
 	first                         []*Mismatch
 }
 
-func exhaustive(tkind, route, hname string, L, workers int) {
+func exhaustive(tkind, route, hname string, L, workers int, core bool) {
 	hashes, prefix := hashConfig(hname)
 	if tkind == "set" {
 		for i := range prefix {
 			prefix[i].V = 0
 		}
 	}
-	alpha := alphabet(tkind, route)
+	alpha := alphabet(tkind, route, core)
 	probe := []int{0, 1, 2, 3, 4}
 	type job struct{ a, b int }
 	jobs := make(chan job, 1024)
@@ -1190,7 +1209,7 @@ func exhaustive(tkind, route, hname string, L, workers int) {
 		}
 	}
 	hx.Emit(map[string]any{"kind": "exh", "tkind": tkind, "route": route, "hashes": hname, "len": L,
-		"alphabet": len(alpha), "histories": tot.histories, "op_executions": tot.opExec, "mismatches": tot.mismatches,
+		"alphabet": len(alpha), "alphabet_kind": map[bool]string{true: "core", false: "full"}[core], "histories": tot.histories, "op_executions": tot.opExec, "mismatches": tot.mismatches,
 		"coverage": map[string]any{"sampled_every": 16, "chain_gt1_bucket": tot.covChain, "grew": tot.covGrew, "reused_vacated_slot": tot.covReused}})
 }
 
@@ -1658,6 +1677,8 @@ func emitObserved(h History, id int) {
 		Obs    []Obs  `json:"obs"`
 		Cov    Cov    `json:"cov"`
 		GoSpec bool   `json:"go_oracle_ok"`
+		Class  string `json:"class,omitempty"` // first operation that differs from the Go oracle
+		At     int    `json:"at"`
 		Err    string `json:"err,omitempty"`
 	}
 	out := rec{Kind: "hist", ID: id, History: h, GoSpec: true}
@@ -1669,7 +1690,7 @@ func emitObserved(h History, id int) {
 		}()
 		s := newSubject(h.TKind, h.Route, h.Hashes, h.Init)
 		var l AL
-		for _, o := range h.Ops {
+		for i, o := range h.Ops {
 			lenBefore := len(l)
 			loc, had := s.before(o)
 			var wo Out
@@ -1678,8 +1699,10 @@ func emitObserved(h History, id int) {
 			s.after(o, loc, had, lenBefore, len(l))
 			n, items := s.observe()
 			out.Obs = append(out.Obs, Obs{got, n, items})
-			if got != wo || n != len(l) || !sameItems(items, l) {
+			if out.GoSpec && (got != wo || n != len(l) || !sameItems(items, l)) {
 				out.GoSpec = false
+				out.Class = classify(o, Obs{got, n, items}, wo, l)
+				out.At = i
 			}
 		}
 		out.Cov = s.cov
@@ -1695,6 +1718,7 @@ func main() {
 		fmt.Fprintln(os.Stderr, "usage: c12 exhaustive|random|sample|replay ...")
 		os.Exit(2)
 	}
+	debug.SetGCPercent(800)
 	loadStar()
 	fs := flag.NewFlagSet(os.Args[1], flag.ExitOnError)
 	L := fs.Int("len", 4, "history length (exhaustive)")
@@ -1706,10 +1730,11 @@ func main() {
 	nops := fs.Int("ops", 10000, "ops per random history")
 	maxops := fs.Int("maxops", 40, "max ops per sample history")
 	seed := fs.Uint64("seed", 1, "seed")
+	alpha := fs.String("alpha", "full", "full|core (insert/delete x 5 keys, popfirst, clear)")
 	fs.Parse(os.Args[2:])
 	switch os.Args[1] {
 	case "exhaustive":
-		exhaustive(*kind, *route, *hashes, *L, *workers)
+		exhaustive(*kind, *route, *hashes, *L, *workers, *alpha == "core")
 	case "random":
 		random(*kind, *route, *n, *nops, *seed, *workers)
 	case "sample":
